@@ -9,3 +9,4 @@ open BHS.Props.C11
 #print axioms C11_fanout_registered_only
 #print axioms C11_fanout_independent
 #print axioms C11_fanout_history
+#print axioms C11_notify_site
